@@ -16,6 +16,9 @@ Gen/Wrappers.vos Gen/Wrappers.vok Gen/Wrappers.required_vos: Gen/Wrappers.v
 Gen/ProxyFacts.vo Gen/ProxyFacts.glob Gen/ProxyFacts.v.beautified Gen/ProxyFacts.required_vo: Gen/ProxyFacts.v 
 Gen/ProxyFacts.vio: Gen/ProxyFacts.v 
 Gen/ProxyFacts.vos Gen/ProxyFacts.vok Gen/ProxyFacts.required_vos: Gen/ProxyFacts.v 
+Gen/ConfigGen.vo Gen/ConfigGen.glob Gen/ConfigGen.v.beautified Gen/ConfigGen.required_vo: Gen/ConfigGen.v 
+Gen/ConfigGen.vio: Gen/ConfigGen.v 
+Gen/ConfigGen.vos Gen/ConfigGen.vok Gen/ConfigGen.required_vos: Gen/ConfigGen.v 
 Model/Limiter.vo Model/Limiter.glob Model/Limiter.v.beautified Model/Limiter.required_vo: Model/Limiter.v Base/Prelude.vo
 Model/Limiter.vio: Model/Limiter.v Base/Prelude.vio
 Model/Limiter.vos Model/Limiter.vok Model/Limiter.required_vos: Model/Limiter.v Base/Prelude.vos
@@ -46,6 +49,9 @@ Model/Proxy.vos Model/Proxy.vok Model/Proxy.required_vos: Model/Proxy.v Base/Pre
 Model/Chain.vo Model/Chain.glob Model/Chain.v.beautified Model/Chain.required_vo: Model/Chain.v Base/Prelude.vo Base/Bytes.vo
 Model/Chain.vio: Model/Chain.v Base/Prelude.vio Base/Bytes.vio
 Model/Chain.vos Model/Chain.vok Model/Chain.required_vos: Model/Chain.v Base/Prelude.vos Base/Bytes.vos
+Model/ConfigSpec.vo Model/ConfigSpec.glob Model/ConfigSpec.v.beautified Model/ConfigSpec.required_vo: Model/ConfigSpec.v Gen/ConfigGen.vo
+Model/ConfigSpec.vio: Model/ConfigSpec.v Gen/ConfigGen.vio
+Model/ConfigSpec.vos Model/ConfigSpec.vok Model/ConfigSpec.required_vos: Model/ConfigSpec.v Gen/ConfigGen.vos
 Proofs/LimiterProofs.vo Proofs/LimiterProofs.glob Proofs/LimiterProofs.v.beautified Proofs/LimiterProofs.required_vo: Proofs/LimiterProofs.v Base/Prelude.vo Model/Limiter.vo
 Proofs/LimiterProofs.vio: Proofs/LimiterProofs.v Base/Prelude.vio Model/Limiter.vio
 Proofs/LimiterProofs.vos Proofs/LimiterProofs.vok Proofs/LimiterProofs.required_vos: Proofs/LimiterProofs.v Base/Prelude.vos Model/Limiter.vos
@@ -73,6 +79,9 @@ Proofs/ProxyProofs.vos Proofs/ProxyProofs.vok Proofs/ProxyProofs.required_vos: P
 Proofs/ChainProofs.vo Proofs/ChainProofs.glob Proofs/ChainProofs.v.beautified Proofs/ChainProofs.required_vo: Proofs/ChainProofs.v Base/Prelude.vo Base/Bytes.vo Model/Chain.vo
 Proofs/ChainProofs.vio: Proofs/ChainProofs.v Base/Prelude.vio Base/Bytes.vio Model/Chain.vio
 Proofs/ChainProofs.vos Proofs/ChainProofs.vok Proofs/ChainProofs.required_vos: Proofs/ChainProofs.v Base/Prelude.vos Base/Bytes.vos Model/Chain.vos
+Proofs/ConfigProofs.vo Proofs/ConfigProofs.glob Proofs/ConfigProofs.v.beautified Proofs/ConfigProofs.required_vo: Proofs/ConfigProofs.v Gen/ConfigGen.vo Model/ConfigSpec.vo
+Proofs/ConfigProofs.vio: Proofs/ConfigProofs.v Gen/ConfigGen.vio Model/ConfigSpec.vio
+Proofs/ConfigProofs.vos Proofs/ConfigProofs.vok Proofs/ConfigProofs.required_vos: Proofs/ConfigProofs.v Gen/ConfigGen.vos Model/ConfigSpec.vos
 Cases/LimiterCase.vo Cases/LimiterCase.glob Cases/LimiterCase.v.beautified Cases/LimiterCase.required_vo: Cases/LimiterCase.v Base/Prelude.vo Model/Limiter.vo
 Cases/LimiterCase.vio: Cases/LimiterCase.v Base/Prelude.vio Model/Limiter.vio
 Cases/LimiterCase.vos Cases/LimiterCase.vok Cases/LimiterCase.required_vos: Cases/LimiterCase.v Base/Prelude.vos Model/Limiter.vos
@@ -97,6 +106,9 @@ Cases/WireCase.vos Cases/WireCase.vok Cases/WireCase.required_vos: Cases/WireCas
 Cases/ChainCase.vo Cases/ChainCase.glob Cases/ChainCase.v.beautified Cases/ChainCase.required_vo: Cases/ChainCase.v Base/Prelude.vo Base/Bytes.vo Model/Chain.vo
 Cases/ChainCase.vio: Cases/ChainCase.v Base/Prelude.vio Base/Bytes.vio Model/Chain.vio
 Cases/ChainCase.vos Cases/ChainCase.vok Cases/ChainCase.required_vos: Cases/ChainCase.v Base/Prelude.vos Base/Bytes.vos Model/Chain.vos
+Cases/ConfigCase.vo Cases/ConfigCase.glob Cases/ConfigCase.v.beautified Cases/ConfigCase.required_vo: Cases/ConfigCase.v Base/Prelude.vo Base/Bytes.vo Gen/ConfigGen.vo Model/ConfigSpec.vo Model/Chain.vo
+Cases/ConfigCase.vio: Cases/ConfigCase.v Base/Prelude.vio Base/Bytes.vio Gen/ConfigGen.vio Model/ConfigSpec.vio Model/Chain.vio
+Cases/ConfigCase.vos Cases/ConfigCase.vok Cases/ConfigCase.required_vos: Cases/ConfigCase.v Base/Prelude.vos Base/Bytes.vos Gen/ConfigGen.vos Model/ConfigSpec.vos Model/Chain.vos
 Props/C09.vo Props/C09.glob Props/C09.v.beautified Props/C09.required_vo: Props/C09.v Base/Prelude.vo Model/Limiter.vo Proofs/LimiterProofs.vo
 Props/C09.vio: Props/C09.v Base/Prelude.vio Model/Limiter.vio Proofs/LimiterProofs.vio
 Props/C09.vos Props/C09.vok Props/C09.required_vos: Props/C09.v Base/Prelude.vos Model/Limiter.vos Proofs/LimiterProofs.vos
@@ -145,3 +157,6 @@ Props/C01.vos Props/C01.vok Props/C01.required_vos: Props/C01.v Base/Prelude.vos
 Props/C17.vo Props/C17.glob Props/C17.v.beautified Props/C17.required_vo: Props/C17.v Base/Prelude.vo Base/Bytes.vo Model/Chain.vo Proofs/ChainProofs.vo Model/Proxy.vo Proofs/ProxyProofs.vo
 Props/C17.vio: Props/C17.v Base/Prelude.vio Base/Bytes.vio Model/Chain.vio Proofs/ChainProofs.vio Model/Proxy.vio Proofs/ProxyProofs.vio
 Props/C17.vos Props/C17.vok Props/C17.required_vos: Props/C17.v Base/Prelude.vos Base/Bytes.vos Model/Chain.vos Proofs/ChainProofs.vos Model/Proxy.vos Proofs/ProxyProofs.vos
+Props/C18.vo Props/C18.glob Props/C18.v.beautified Props/C18.required_vo: Props/C18.v Gen/ConfigGen.vo Model/ConfigSpec.vo Proofs/ConfigProofs.vo Base/Bytes.vo Model/Chain.vo
+Props/C18.vio: Props/C18.v Gen/ConfigGen.vio Model/ConfigSpec.vio Proofs/ConfigProofs.vio Base/Bytes.vio Model/Chain.vio
+Props/C18.vos Props/C18.vok Props/C18.required_vos: Props/C18.v Gen/ConfigGen.vos Model/ConfigSpec.vos Proofs/ConfigProofs.vos Base/Bytes.vos Model/Chain.vos
